@@ -140,7 +140,7 @@ func TestVerifC22Cluster(t *testing.T) {
 			}
 		}
 		if _, err := c[0].API.Query(ctx, &pilosa.QueryRequest{Index: "i", Query: sb.String()}); err != nil {
-			r.Fail("cluster:write-error", id, err.Error(), cs)
+			r.FailOrUndecided("cluster:write-error", id, err.Error(), cs)
 			return
 		}
 		type key struct {
@@ -252,7 +252,7 @@ func TestVerifC22Cluster(t *testing.T) {
 		}
 		r.Eval(1)
 		if viol != "" {
-			r.Fail("cluster:two-jobs:"+action, id, viol, cs)
+			r.FailOrUndecided("cluster:two-jobs:"+action, id, viol, cs)
 			return
 		}
 		if !settled {
@@ -263,7 +263,7 @@ func TestVerifC22Cluster(t *testing.T) {
 		got := members(c[0])
 		r.Eval(1)
 		if got != oldSet && got != newSet {
-			r.Fail("cluster:membership-neither-old-nor-new:"+action, id, fmt.Sprintf("members after the job: [%s]; old [%s], new [%s]", got, oldSet, newSet), cs)
+			r.FailOrUndecided("cluster:membership-neither-old-nor-new:"+action, id, fmt.Sprintf("members after the job: [%s]; old [%s], new [%s]", got, oldSet, newSet), cs)
 			return
 		}
 		// data under the final membership
@@ -281,14 +281,14 @@ func TestVerifC22Cluster(t *testing.T) {
 		for k, want := range model {
 			nodes, err := c[0].API.ShardNodes(ctx, "i", k.shard)
 			if err != nil {
-				r.Fail("cluster:shardnodes-error", id, err.Error(), cs)
+				r.FailOrUndecided("cluster:shardnodes-error", id, err.Error(), cs)
 				return
 			}
 			for _, nd := range nodes {
 				m := byID[nd.ID]
 				r.Eval(1)
 				if m == nil {
-					r.Fail("cluster:owner-not-a-member:"+action, id, fmt.Sprintf("i/%s/%d owned by %s, members [%s]", k.field, k.shard, nd.ID, got), cs)
+					r.FailOrUndecided("cluster:owner-not-a-member:"+action, id, fmt.Sprintf("i/%s/%d owned by %s, members [%s]", k.field, k.shard, nd.ID, got), cs)
 					return
 				}
 				ps, _ := pilosa.VerifFragPositions(m.Server.Holder(), "i", k.field, "standard", k.shard)
@@ -297,7 +297,7 @@ func TestVerifC22Cluster(t *testing.T) {
 					if got == oldSet {
 						outcome = "aborted"
 					}
-					r.Fail("cluster:owner-lacks-data:"+action+":"+outcome, id, fmt.Sprintf("after %s (%s) node %s owns i/%s/%d but holds %s, recorded %s", action, outcome, nd.ID, k.field, k.shard, vk.Brief(ps), vk.Brief(want)), cs)
+					r.FailOrUndecided("cluster:owner-lacks-data:"+action+":"+outcome, id, fmt.Sprintf("after %s (%s) node %s owns i/%s/%d but holds %s, recorded %s", action, outcome, nd.ID, k.field, k.shard, vk.Brief(ps), vk.Brief(want)), cs)
 					return
 				}
 			}
@@ -310,7 +310,7 @@ func TestVerifC22Cluster(t *testing.T) {
 			}
 			r.Eval(1)
 			if st := jm.API.State(); st == pilosa.ClusterStateResizing {
-				r.Fail("cluster:joiner-left-resizing-after-abort", id, fmt.Sprintf("the job ended ABORTED, members are back to NORMAL [%s], but the joining node %s still reports %s with members [%s] (5 s after the members settled)", got, joiner, st, members(jm)), cs)
+				r.FailOrUndecided("cluster:joiner-left-resizing-after-abort", id, fmt.Sprintf("the job ended ABORTED, members are back to NORMAL [%s], but the joining node %s still reports %s with members [%s] (5 s after the members settled)", got, joiner, st, members(jm)), cs)
 			}
 		}
 		r.Cover("cluster:action:" + action)
